@@ -365,7 +365,15 @@ func invariants(o *vh.Out, c *checked, origin, caseLine string) {
 		}
 		if ps, en := safeSpan(e); !inFiles(c.files, ps, en) {
 			if !ps.IsValid() {
-				o.Oracle("types-node-without-position:"+nodeKind(e), caseLine, fmt.Sprintf("%s: Types has a %s without position: %s", origin, nodeKind(e), exprText(e)))
+				kind := nodeKind(e)
+				if id, ok := e.(*ast.Ident); ok {
+					for _, f := range c.files {
+						if f.IsClass && strings.HasPrefix(filepath.Base(fset.Position(f.Pos()).Filename), id.Name+".") {
+							kind = "Ident:classfile-receiver-type"
+						}
+					}
+				}
+				o.Oracle("types-node-without-position:"+kind, caseLine, fmt.Sprintf("%s: Types has a %s without position: %s", origin, nodeKind(e), exprText(e)))
 			} else {
 				o.Oracle("types-node-outside-files:"+nodeKind(e), caseLine, fmt.Sprintf("%s: Types has a %s at %s..%s", origin, nodeKind(e), where(e.Pos()), where(e.End())))
 			}
